@@ -152,6 +152,8 @@ def spec_time_shift(c, z, shift, crop=False):
         s_of, space, s_at = shift_per_element(c, s, S)
         allzero = V.And(*[V.eq(s_at(m), 0) for m in space])
         alltiny = V.And(*[V.And(V.le(s_at(m), tiny), V.le(V.neg(tiny), s_at(m))) for m in space])
+    if c.branch(allzero, "all shifts are zero"):
+        return z            # a delay by 0 samples is the identity and zero-fills nothing (ceil(0) = 0)
     if c.branch(alltiny, "all shifts within 1e-8 of zero (not all exactly zero)"):
         # the statement has no tolerance: a shift of 1e-9 samples still zero-fills ceil(s) = 1 sample
         c.tag("shift-below-1e-8")
